@@ -16,9 +16,14 @@ def _last(key):
     return key.rsplit("::", 1)[-1]
 
 
-def fold(v, consts=None):
-    """Integer value of a constant expression, or None."""
+def fold(v, consts=None, subst=None):
+    """Integer value of a constant expression, or None. `subst(v)` may supply the value of
+    a variable sub-term (used to evaluate extracted decision lists over a small domain)."""
     consts = consts or {}
+    if subst is not None:
+        r = subst(v)
+        if r is not None:
+            return r
     k = v[0]
     if k == "const":
         if isinstance(v[1], bool):
@@ -29,7 +34,7 @@ def fold(v, consts=None):
             return consts[v[1]]
         return None
     if k == "cast":
-        x = fold(v[1], consts)
+        x = fold(v[1], consts, subst)
         if x is None:
             return None
         bits = MASK.get(v[2])
@@ -41,12 +46,12 @@ def fold(v, consts=None):
         b = v[1]
         if names == ("0",):
             if b[0] == "binop":          # (a op b).0 of a checked operation
-                return fold(b, consts)
+                return fold(b, consts, subst)
             if b[0] == "const":          # newtype constant, e.g. VarInt::MAX.0
-                return fold(b, consts)
+                return fold(b, consts, subst)
         return None
     if k == "binop":
-        a, b = fold(v[2], consts), fold(v[3], consts)
+        a, b = fold(v[2], consts, subst), fold(v[3], consts, subst)
         if a is None or b is None:
             return None
         op = v[1].replace("WithOverflow", "").replace("Unchecked", "")
@@ -77,7 +82,7 @@ def fold(v, consts=None):
             return None
         return None
     if k == "unop":
-        a = fold(v[2], consts)
+        a = fold(v[2], consts, subst)
         if a is None:
             return None
         if v[1] == "Neg":
@@ -85,7 +90,7 @@ def fold(v, consts=None):
         return None
     if k == "call":
         name = _last(v[1])
-        args = [fold(a, consts) for a in v[2]]
+        args = [fold(a, consts, subst) for a in v[2]]
         if any(a is None for a in args):
             return None
         if name == "pow" and v[1].split("::")[0] in MASK and len(args) == 2:
@@ -186,3 +191,46 @@ def mentions(v, pred):
         elif k == "phi":
             st.extend(x[1])
     return False
+
+
+def test_holds(test, consts=None, subst=None):
+    """Truth of one recorded branch decision (bb, text, label, value, explicit) under a
+    substitution: True / False / None (cannot tell)."""
+    _, _, label, v, explicit = test[:5]
+    if label in ("true", "false"):
+        x = fold(v, consts, subst)
+        if x is None:
+            nf = cmp_nf(v, "true")
+            if nf is None:
+                return None
+            a, b = fold(nf[0], consts, subst), fold(nf[2], consts, subst)
+            if a is None or b is None:
+                return None
+            x = int({"<": a < b, "<=": a <= b, ">": a > b, ">=": a >= b, "==": a == b, "!=": a != b}[nf[1]])
+        return bool(x) == (label == "true")
+    if v[0] == "discr":
+        return None
+    x = fold(v, consts, subst)
+    if x is None:
+        return None
+    if label == "otherwise":
+        return x not in (explicit or ())
+    try:
+        return x == int(label)
+    except ValueError:
+        return None
+
+
+def decide(paths, consts, subst):
+    """The paths whose every decidable test holds under subst (undecidable tests are kept as 'maybe')."""
+    out = []
+    for p in paths:
+        ok = True
+        for t in p.tests:
+            h = test_holds(t, consts, subst)
+            if h is False:
+                ok = False
+                break
+        if ok:
+            out.append(p)
+    return out
